@@ -16,17 +16,18 @@ ASSUMPTIONS = ["when two channels of one basis drive the same atom the statement
                "noiseless emulator; cases tainted by a C09 partial effect are set aside"]
 TIERS = {"quick": dict(cases=480, shards=8, case_timeout=240, shard_timeout=1200),
          "thorough": dict(cases=4000, shards=16, case_timeout=240, shard_timeout=3400)}
-FLOORS = {"quick": {"sequences_compared": 250, "hamiltonians_compared": 30000, "basis_checks": 250},
+FLOORS = {"quick": {"sequences_compared": 250, "hamiltonians_compared": 30000, "basis_checks": 250, "open_global_eom_blocks_padded": 5},
           "thorough": {"sequences_compared": 2000}}
 WEIGHTS = {"sample": 0, "str": 0, "to_abstract_repr": 0, "build_copy": 0, "queries": 0, "get_duration": 0,
            "estimate_added_delay": 0, "is_in_eom_mode": 0, "current_phase_ref": 0, "measure": 0.05, "add": 12,
            "config_detuning_map": 1.5, "add_dmm_detuning": 3, "config_slm_mask": 1.0, "target": 2.5,
-           "phase_shift": 1.5, "delay": 1.5, "align": 0.7, "enable_eom_mode": 0.6, "add_eom_pulse": 2}
+           "phase_shift": 1.5, "delay": 1.5, "align": 0.7, "enable_eom_mode": 1.0, "add_eom_pulse": 2,
+           "modify_eom_setpoint": 1.5, "disable_eom_mode": 0.3}
 
 
 def run_case(ctx, idx, rng, tier):
     xy = rng.random() < 0.25
-    dev = gen.gen_device(rng, xy=xy, p_builtin=0.2, p_physical=0.1, max_seq=0.0, want_eom=0.3)
+    dev = gen.gen_device(rng, xy=xy, p_builtin=0.2, p_physical=0.1, max_seq=0.0, want_eom=0.45)
     if dev["kind"] == "builtin" and dev["name"] == "AnalogDevice":
         dev = {"kind": "builtin", "name": "MockDevice"}
     reg = gen.gen_register(rng, dev, nmin=1, nmax=4, kind="reg")
